@@ -257,7 +257,7 @@ def judge_renorm_result(part, fa, sig, label, dtname, cols, R, exact, dom, size,
             tot2 = sum(R2w[1:], R2w[0])
             bad = dom & fin & ~(tot2 == exact)
             report(part, sig + ":sum-changed-pass2", dtname, cols, bad, lambda i: f"{label}: second pass changes the sum: {[float(r[i]) for r in R]} -> {[float(r[i]) for r in R2]}")
-            judge_normal_form(part, sig + ":not-normal-after-2-passes", dtname, R2, cols, label, dom & fin, True)
+            judge_normal_form(part, sig + ":not-normal-after-2-passes" + (":n>=5" if n >= 5 else ""), dtname, R2, cols, label, dom & fin, True)
         else:
             # eager: second pass per row
             ctxrows = np.flatnonzero(dom & fin)
@@ -275,7 +275,7 @@ def judge_renorm_result(part, fa, sig, label, dtname, cols, R, exact, dom, size,
                 tot2 = sum(R2w[1:], R2w[0])
                 bad = ~(tot2 == exact[ctxrows])
                 report(part, sig + ":sum-changed-pass2", dtname, sub, bad, lambda i: f"{label}: second pass changes the sum -> {[float(r[i]) for r in R2]}")
-                judge_normal_form(part, sig + ":not-normal-after-2-passes", dtname, R2, sub, label, np.ones(len(ctxrows), bool), False)
+                judge_normal_form(part, sig + ":not-normal-after-2-passes" + (":n>=5" if n >= 5 else ""), dtname, R2, sub, label, np.ones(len(ctxrows), bool), False)
     else:
         # truncated: the result must be the leading `size` non-zero terms of the untruncated result
         try:
